@@ -88,6 +88,11 @@ def make_inputs(ctx):
     pool = [t for k, t in texts if k in ("cgen", "declgen", "scopegen", "typedefgen", "shape")]
     for i in range(400 if q else 12000):
         texts.append(("ident-swap", mutate_identifiers(rng, pool[rng.randrange(len(pool))], rng.randrange(1, 4))))
+    # the forms that need every extension / translation switched on (kind "ext": parsed with all switches on)
+    from gen.snippets import extension_corpus
+    for _, t in extension_corpus():
+        texts.append(("ext", t))
+        texts.append(("ext", mutate_identifiers(rng, t, 1)))
     sn = [t for c, t in corpus() if c == "a"]
     for t in sn[:: (6 if q else 1)]:
         texts.append(("snippets", t))
@@ -128,7 +133,8 @@ def run(ctx):
     totals = collections.Counter()
     for fl in flavours:
         stages.cxx_stage(ctx, fl)
-        lines = ["%s 4 %s" % (opts(), (t.encode("latin-1", "replace") or b" ").hex()) for _, t in texts]
+        ALLON = "2,1,0,2," + "1" * 31
+        lines = ["%s 4 %s" % (ALLON if k_ == "ext" else opts(), (t.encode("latin-1", "replace") or b" ").hex()) for k_, t in texts]
         if fl == "ndebug":
             # the earlier phases on their own as well (a walk after binding only, after canonicalisation only, …)
             lines += ["%s %d %s" % (opts(), ph, (t.encode("latin-1", "replace") or b" ").hex()) for ph in (1, 2, 3) for _, t in texts[:: 3]]
